@@ -1,10 +1,24 @@
-use core::num::ParseIntError;
+use core::{num::ParseIntError, ops::Range};
+
+/// Returns the hexadecimal digits in `hex[range]`.
+///
+/// `from_str_radix` also accepts a leading `+`, and slicing a `str` in the
+/// middle of a multi-byte character panics. Anything that isn't only
+/// hexadecimal digits is therefore replaced by a string that `from_str_radix`
+/// rejects as an invalid digit.
+#[inline]
+fn hex_digits(hex: &str, range: Range<usize>) -> &str {
+    match hex.get(range) {
+        Some(digits) if digits.bytes().all(|digit| digit.is_ascii_hexdigit()) => digits,
+        _ => "?",
+    }
+}
 
 #[inline]
 pub(crate) fn rgb_from_hex_4bit(hex: &str) -> Result<(u8, u8, u8), ParseIntError> {
-    let red = u8::from_str_radix(&hex[..1], 16)?;
-    let green = u8::from_str_radix(&hex[1..2], 16)?;
-    let blue = u8::from_str_radix(&hex[2..3], 16)?;
+    let red = u8::from_str_radix(hex_digits(hex, 0..1), 16)?;
+    let green = u8::from_str_radix(hex_digits(hex, 1..2), 16)?;
+    let blue = u8::from_str_radix(hex_digits(hex, 2..3), 16)?;
 
     Ok((red * 17, green * 17, blue * 17))
 }
@@ -12,16 +26,16 @@ pub(crate) fn rgb_from_hex_4bit(hex: &str) -> Result<(u8, u8, u8), ParseIntError
 #[inline]
 pub(crate) fn rgba_from_hex_4bit(hex: &str) -> Result<(u8, u8, u8, u8), ParseIntError> {
     let (red, green, blue) = rgb_from_hex_4bit(hex)?;
-    let alpha = u8::from_str_radix(&hex[3..4], 16)?;
+    let alpha = u8::from_str_radix(hex_digits(hex, 3..4), 16)?;
 
     Ok((red, green, blue, alpha * 17))
 }
 
 #[inline]
 pub(crate) fn rgb_from_hex_8bit(hex: &str) -> Result<(u8, u8, u8), ParseIntError> {
-    let red = u8::from_str_radix(&hex[..2], 16)?;
-    let green = u8::from_str_radix(&hex[2..4], 16)?;
-    let blue = u8::from_str_radix(&hex[4..6], 16)?;
+    let red = u8::from_str_radix(hex_digits(hex, 0..2), 16)?;
+    let green = u8::from_str_radix(hex_digits(hex, 2..4), 16)?;
+    let blue = u8::from_str_radix(hex_digits(hex, 4..6), 16)?;
 
     Ok((red, green, blue))
 }
@@ -29,16 +43,16 @@ pub(crate) fn rgb_from_hex_8bit(hex: &str) -> Result<(u8, u8, u8), ParseIntError
 #[inline]
 pub(crate) fn rgba_from_hex_8bit(hex: &str) -> Result<(u8, u8, u8, u8), ParseIntError> {
     let (red, green, blue) = rgb_from_hex_8bit(hex)?;
-    let alpha = u8::from_str_radix(&hex[6..8], 16)?;
+    let alpha = u8::from_str_radix(hex_digits(hex, 6..8), 16)?;
 
     Ok((red, green, blue, alpha))
 }
 
 #[inline]
 pub(crate) fn rgb_from_hex_16bit(hex: &str) -> Result<(u16, u16, u16), ParseIntError> {
-    let red = u16::from_str_radix(&hex[..4], 16)?;
-    let green = u16::from_str_radix(&hex[4..8], 16)?;
-    let blue = u16::from_str_radix(&hex[8..12], 16)?;
+    let red = u16::from_str_radix(hex_digits(hex, 0..4), 16)?;
+    let green = u16::from_str_radix(hex_digits(hex, 4..8), 16)?;
+    let blue = u16::from_str_radix(hex_digits(hex, 8..12), 16)?;
 
     Ok((red, green, blue))
 }
@@ -46,16 +60,16 @@ pub(crate) fn rgb_from_hex_16bit(hex: &str) -> Result<(u16, u16, u16), ParseIntE
 #[inline]
 pub(crate) fn rgba_from_hex_16bit(hex: &str) -> Result<(u16, u16, u16, u16), ParseIntError> {
     let (red, green, blue) = rgb_from_hex_16bit(hex)?;
-    let alpha = u16::from_str_radix(&hex[12..16], 16)?;
+    let alpha = u16::from_str_radix(hex_digits(hex, 12..16), 16)?;
 
     Ok((red, green, blue, alpha))
 }
 
 #[inline]
 pub(crate) fn rgb_from_hex_32bit(hex: &str) -> Result<(u32, u32, u32), ParseIntError> {
-    let red = u32::from_str_radix(&hex[..8], 16)?;
-    let green = u32::from_str_radix(&hex[8..16], 16)?;
-    let blue = u32::from_str_radix(&hex[16..24], 16)?;
+    let red = u32::from_str_radix(hex_digits(hex, 0..8), 16)?;
+    let green = u32::from_str_radix(hex_digits(hex, 8..16), 16)?;
+    let blue = u32::from_str_radix(hex_digits(hex, 16..24), 16)?;
 
     Ok((red, green, blue))
 }
@@ -63,7 +77,7 @@ pub(crate) fn rgb_from_hex_32bit(hex: &str) -> Result<(u32, u32, u32), ParseIntE
 #[inline]
 pub(crate) fn rgba_from_hex_32bit(hex: &str) -> Result<(u32, u32, u32, u32), ParseIntError> {
     let (red, green, blue) = rgb_from_hex_32bit(hex)?;
-    let alpha = u32::from_str_radix(&hex[24..32], 16)?;
+    let alpha = u32::from_str_radix(hex_digits(hex, 24..32), 16)?;
 
     Ok((red, green, blue, alpha))
 }
